@@ -37,6 +37,8 @@ module Z :
 
   val eqb : coq_Z -> coq_Z -> bool
 
+  val max : coq_Z -> coq_Z -> coq_Z
+
   val abs : coq_Z -> coq_Z
 
   val to_nat : coq_Z -> nat
